@@ -33,6 +33,11 @@ type parked struct {
 // Sched is one scheduling session (one execution).
 type Sched struct {
 	Settle time.Duration
+	// Stagger starts the workers one at a time, in list order, each when the workers started so far
+	// are parked, finished or blocked: a worker then reaches its first storage operation (having
+	// made its in-memory decisions) before the next one starts. Callers permute the list to
+	// explore the start orders.
+	Stagger bool
 	// OnQuiescent is called (scheduler goroutine) each time the system is quiescent, before a
 	// release; no storage operation is in flight at that moment.
 	OnQuiescent func(step int, parked []Info)
@@ -100,14 +105,15 @@ func (s *Sched) Done(kind, key string) {
 func (s *Sched) Run(workers []func(), choose func(step int, opts []Info) int) {
 	s.n = len(workers)
 	var wg sync.WaitGroup
-	startAll := make(chan struct{})
+	starts := make([]chan struct{}, len(workers))
 	reg := make(chan struct{}, len(workers))
 	s.mu.Lock()
-	s.running = len(workers)
+	s.running = 0
 	s.lastChange = time.Now()
 	s.mu.Unlock()
 	for i, f := range workers {
 		wg.Add(1)
+		starts[i] = make(chan struct{})
 		go func(i int, f func()) {
 			defer wg.Done()
 			g := hist.Goid()
@@ -115,7 +121,7 @@ func (s *Sched) Run(workers []func(), choose func(step int, opts []Info) int) {
 			s.workers[g] = i
 			s.mu.Unlock()
 			reg <- struct{}{}
-			<-startAll
+			<-starts[i]
 			defer func() {
 				s.mu.Lock()
 				s.running--
@@ -133,7 +139,26 @@ func (s *Sched) Run(workers []func(), choose func(step int, opts []Info) int) {
 	for range workers {
 		<-reg
 	}
-	close(startAll)
+	for i := range workers {
+		s.mu.Lock()
+		s.running++
+		s.touch()
+		s.mu.Unlock()
+		close(starts[i])
+		if s.Stagger && i < len(workers)-1 {
+			// wait until the workers started so far are parked / finished / blocked
+			s.mu.Lock()
+			for !(s.running == 0 || time.Since(s.lastChange) >= s.Settle) {
+				s.mu.Unlock()
+				select {
+				case <-s.notify:
+				case <-time.After(s.Settle / 2):
+				}
+				s.mu.Lock()
+			}
+			s.mu.Unlock()
+		}
+	}
 	step := 0
 	deadline := time.Now().Add(120 * time.Second)
 	for {
